@@ -709,7 +709,7 @@ def gen_c17(rng):
         return {"mode": "server", "kind": rng.choice(["plain", "pooled"]), "family": rng.choice(["tcp", "unix"]),
                 "chunk": chunk, "backend": backend, "param": gen_text(rng, rng.choice([None, 40, 7, 64])),
                 "content_type": rng.choice(["application/json-rpc", "application/json"]),
-                "seg": rng.choice(["whole", "random", "small"]), "unbuffered": rng.random() < 0.3}
+                "seg": rng.choice(["whole", "random", "small"]), "unbuffered": rng.random() < 0.3, "empty_body": rng.random() < 0.08}
     if k < 0.95:
         return {"mode": "cgi", "backend": backend, "param": gen_text(rng), "content_type": rng.choice(["application/json-rpc", "application/json"])}
     return {"mode": "scheme", "scheme": rng.choice(["ftp", "ws", "file", "", "unix+ftp", "unix+https", "gopher", "httpx", "unix+", "mailto", "svn+http", "git+https", "tcp+http",
@@ -858,6 +858,8 @@ class C17Run(object):
         try:
             st = s.spawn(lambda: srv.serve_forever(0.5), "serve_forever", "server")
             body = json.dumps({"jsonrpc": "2.0", "method": "echo", "params": [p["param"]], "id": 1}, ensure_ascii=False).encode("utf-8")
+            if p.get("empty_body"):
+                body = b""  # size 0: answered like any other body (an invalid-request error)
             sm = simnet.module()
             if unix:
                 sock = sm.socket(socket.AF_UNIX, socket.SOCK_STREAM)
@@ -1002,6 +1004,13 @@ def analyse_c17(program, s, run, verdict):
             v.append(Violation("C17", "reassembly", "server-http-%s" % status,
                                "valid UTF-8 request body of %d bytes (read chunk %s) answered with HTTP %s" % (
                                    len(p["param"].encode("utf-8")), p.get("chunk") or "10 MiB", status)))
+        elif p.get("empty_body"):
+            try:
+                obj = json.loads(body.decode("utf-8"))
+                if not isinstance(obj, dict) or "error" not in obj:
+                    v.append(Violation("C17", "reassembly", "server-empty-body-reply", "an empty request body was answered %r" % body[:80]))
+            except ValueError:
+                v.append(Violation("C17", "reassembly", "server-reply-undecodable", "reply to an empty body is not UTF-8 JSON"))
         else:
             try:
                 obj = json.loads(body.decode("utf-8"))
@@ -1009,7 +1018,7 @@ def analyse_c17(program, s, run, verdict):
                     v.append(Violation("C17", "reassembly", "server-text-differs", "text handed to the method differs from the decoding of the whole body"))
             except ValueError:
                 v.append(Violation("C17", "reassembly", "server-reply-undecodable", "reply body is not UTF-8 JSON"))
-            if not ev["server.got"][3]:
+            if not ev["server.got"][3] and not p.get("empty_body"):
                 v.append(Violation("C17", "reassembly", "server-text-differs", "the method did not receive the text that was sent"))
         if hd.get("content-length") != str(len(body)):
             v.append(Violation("C17", "content-length", "server-reply", "reply declares Content-length %r for a body of %d bytes" % (hd.get("content-length"), len(body))))
@@ -1074,6 +1083,8 @@ class C17Scenario(object):
             if pg.get("chunk") and any(ord(c) > 127 for c in pg["param"]):
                 p["multibyte_request_with_small_read_chunk"] = 1
             p["server_" + pg["kind"]] = 1
+            if pg.get("empty_body"):
+                p["empty_request_body"] = 1
         if s.faults.get("short_read"):
             p["short_reads"] = 1
         stats = {"steps": s.step, "switches": s.nswitch, "simtime": s.now, "verdict": verdict.kind if verdict else None,
